@@ -266,6 +266,18 @@ def extract_all(repo):
             return {"boundaryLen": same(uses, "boundary length (.take(…) of the random characters)")}
         return {"boundaryLen": resolve("BOUNDARY_LEN", k) if "BOUNDARY_LEN" in k else (_ for _ in ()).throw(Missing("BOUNDARY_LEN"))}
     attempt(["boundaryLen"], boundary_len)
+
+    def text_stage_cap():
+        # the staging buffer of `impl Read for TextReader` (reads with less room than it has are served from
+        # it): the byte array among the fields of the struct whose `read` falls back to the decoder
+        tr = src("src/parsing/text_reader.rs")
+        k = file_consts(tr)
+        m = need(re.search(r"struct\s+TextReader\b[^{]*\{(.*?)\n\}", tr, re.S), "struct TextReader")
+        arrays = [resolve(a.group(1), k) for a in re.finditer(r":\s*\[\s*u8\s*;\s*([A-Z_][A-Z0-9_]*|[0-9_]+)\s*\]", m.group(1))]
+        if not arrays:
+            raise Missing("no fixed-size byte array among the fields of TextReader (staging buffer)")
+        return {"textStageCap": same(arrays, "size of the staging buffer of TextReader")}
+    attempt(["textStageCap"], text_stage_cap)
     return c, missing
 
 def extract(repo):
@@ -283,7 +295,7 @@ def render(c):
         lines.append("def %s : Nat := %d" % (k, c[k]))
     lines.append("/-- the statuses in the `matches!` of `send` -/")
     lines.append("def redirectStatuses : List Nat := [%s]" % ", ".join(str(x) for x in c["redirectStatuses"]))
-    for k in ["defaultMaxHeaders", "defaultMaxRedirections", "defaultConnectTimeoutMs", "defaultReadTimeoutMs", "boundaryLen"]:
+    for k in ["defaultMaxHeaders", "defaultMaxRedirections", "defaultConnectTimeoutMs", "defaultReadTimeoutMs", "boundaryLen", "textStageCap"]:
         lines.append("def %s : Nat := %d" % (k, c[k]))
     for k in ["defaultFollowRedirects", "defaultTimeoutNone", "defaultAcceptInvalidCerts", "defaultAcceptInvalidHostnames", "defaultAllowCompression", "wdDropsRxBeforeShutdown"]:
         lines.append("def %s : Bool := %s" % (k, "true" if c[k] else "false"))
@@ -321,7 +333,7 @@ def main():
         if k in prev:
             full[k] = prev[k]
     if any(k not in full for k in LEAN_NAMES + ["redirectStatuses", "defaultMaxHeaders", "defaultMaxRedirections",
-            "defaultConnectTimeoutMs", "defaultReadTimeoutMs", "boundaryLen", "defaultFollowRedirects", "defaultTimeoutNone",
+            "defaultConnectTimeoutMs", "defaultReadTimeoutMs", "boundaryLen", "textStageCap", "defaultFollowRedirects", "defaultTimeoutNone",
             "defaultAcceptInvalidCerts", "defaultAcceptInvalidHostnames", "defaultAllowCompression", "wdDropsRxBeforeShutdown"]):
         print("extract_consts: no previous value to fall back on", file=sys.stderr)
         sys.exit(2)
